@@ -73,6 +73,14 @@ class CasGen:
         names = rng.sample(TYPE_POOL, min(self.n_types, len(TYPE_POOL)))
         if all(n == "x.Str" for n in names):
             names.append("x.A")
+        if rng.random() < 0.2:
+            # a type without namespace named like the short name of a packaged type that is created before it (short-name lookups
+            # must not confuse the two: merge of embedded and supplied type systems, lenient checks, get_type)
+            pk = [n for n in names if "." in n and n != "x.Str"]
+            if pk:
+                bare = rng.choice(pk).rsplit(".", 1)[1]
+                if bare not in names:
+                    names.append(bare)
         for n in names:
             if n == "x.Str" and self.flat:
                 continue
